@@ -285,3 +285,7 @@ Proof.
   rewrite vrenders_app. rewrite app_nth2; rewrite vrenders_length; [|lia].
   rewrite Nat.sub_diag. reflexivity.
 Qed.
+
+(* a hash never contains an array or a hash: they cannot be keys (repaired under C02: the TypeError of `unhashable in dict` used to escape) *)
+Lemma contains_hash_nonkey d r : match r with VList _ | VDict _ => liq_contains (VDict d) r = Ok false | _ => True end.
+Proof. destruct r as [| | | | | |l|d'| | |]; try exact I; unfold liq_contains; cbn [truthy negb orb]; reflexivity. Qed.
